@@ -67,6 +67,10 @@ def gen_op(rng, w, first, hardlinks):
     if k < 0.91:
         return ['symlink', d, rng.choice(DIRS) + rng.choice(['a', 'ln', 'lm']), rng.choice(['a', '../b', 'nowhere', 'da'])]
     if k < 0.935 and hardlinks:
+        if rng.random() < 0.4:
+            c = [l for l in sorted(T[d]['links'])] + [f for f in have if T[d]['files'][f][3] > 1]
+            if c:
+                return ['linkkind', d, rng.choice(c)]
         return ['hardlink', d, ex(), rpath(rng)]
     if k < 0.96:
         return ['mkdir', d, rng.choice(['da/in', 'db', 'em', 'a', 'da/ee/f'])]
@@ -166,7 +170,7 @@ class Hist:
         self.chk.violation(tag, 'MODEL-DRIFT: ' + what, {'config': self.cfg, 'history': self.w.log, **kw}, no_input=True)
 
     # ----------------------------------------------------------------------------------------------
-    def step(self, ops, partial=False, invisible=False):
+    def step(self, ops, partial=False, invisible=False, popts=None):
         w, a = self.w, self.w.arr
         if ops is None:
             ops = apply_ops(self.rng, w, self.stats['steps'] == 0, self.cfg['order'] == 'alpha')
@@ -215,13 +219,14 @@ class Hist:
                 self.bad('diff_threads', 'diff gives a different verdict with threaded and with sequential scanning: %d %s vs %d %s' % (r.rc, cnt, r2.rc, counters(r2)))
                 return False
         # ---- the sync, with the model predicting the post-scan state and the final state
+        sopts = (popts or ['-B', str(self.rng.randint(1, 3))]) if partial else []
         if self.model:
-            ok = c11_model.sync_with_model(self, st0, lst, ['-B', str(self.rng.randint(1, 3))] if partial else [])
+            ok = c11_model.sync_with_model(self, st0, lst, sopts)
             if ok is False:
                 return False
             r = ok
         else:
-            r = w.run('sync', *(['-B', str(self.rng.randint(1, 3))] if partial else [])); self.ncmd += 1
+            r = w.run('sync', *sopts); self.ncmd += 1
         if r.rc != 0:
             errs = r.tag('error:')
             if errs and all('Unexpected data change' in t for t in errs):
@@ -286,6 +291,21 @@ class Hist:
                 return self.invisible_probe(st2, vnow)
         return True
 
+    def step_killed(self, ops):
+        """changes, then a sync that dies before its first parity write (the content file holds the post-scan state): only the
+        map/parity oracles are applied; the next step sees an incomplete sync"""
+        w, a = self.w, self.w.arr
+        for o in ops:
+            w.op(o)
+        w.sync_store()
+        r = w.run('sync', shim_env={'VSHIM_KILL_ON': 'pwrite:.parity:1:before'}); self.ncmd += 1
+        st = w.content()
+        if st is not None:
+            for e in (a.check_map(st) + a.check_parity(st)[0])[:1]:
+                self.bad('c06_oracle', 'after a sync killed before its first parity write: %s' % e)
+                return False
+        return True
+
     def invisible_probe(self, st2, vnow):
         """a same-size rewrite in place with the time-stamp put back: by the property's own words only files whose size or
         time-stamp changed are read again, so diff must say `equal`, sync must not touch anything -- and check then finds
@@ -336,6 +356,70 @@ class Hist:
                 break
             if len(self.chk.violations) > 4:
                 break
+
+
+def scripted(chk, binary, shim, model, rng, tier):
+    """fixed recipes with randomised parameters, run before the generated histories:
+    (a) a copy-detected file, an incomplete sync (-B / -S -B / killed), the copy touched (same bytes, re-allocated at the same
+        positions), a full sync: the parity oracle and `check` judge whether the parity really holds the copy;
+    (b) a symlink replaced by a hard link of the same name whose recorded target text is the same, and back"""
+    out = []
+    nvar = 4 if tier == 'quick' else 16
+    for v in range(nvar):
+        size = rng.choice([3072, 4100, 5000, 2500])
+        how = ['B2', 'filler_B1', 'S1B1', 'kill'][v % 4]
+        cfg = {'nd': 2, 'np': rng.choice([1, 2]), 'order': 'alpha', 'uuid': v % 2 == 0, 'multi': False, 'where': 'tmpfs', 'both_scans': False,
+               'seed': rng.getrandbits(32), 'scripted': 'copy_partial_touch/' + how}
+        H = Hist(chk, binary, shim, model, random.Random(cfg['seed']), cfg)
+        try:
+            first = [['create', 'd1', 'X', size], ['create', 'd1', 'other', 1500]]
+            if how == 'filler_B1':
+                first.append(['create', 'd2', 'filler', 2048])
+            ok = H.step(first)
+            if ok and how == 'kill':
+                ok = H.step_killed([['copy', 'd1', 'X', 'd2', 'X']])
+            elif ok:
+                ok = H.step([['copy', 'd1', 'X', 'd2', 'X']], partial=True, popts={'B2': ['-B', '2'], 'filler_B1': ['-B', '1'], 'S1B1': ['-S', '1', '-B', '1']}[how])
+            ok = ok and H.step([['touch', 'd2', 'X']])
+            ok = ok and H.step([['rewrite', 'd1', 'other']])
+            if ok and model:
+                c11_model.flush_drift(H)
+        finally:
+            shutil.rmtree(H.w.arr.root, ignore_errors=True)
+        out.append(H)
+    for v in range(nvar):
+        # (c) an incomplete sync whose remaining work is only removals (DELETED blocks under live blocks of another disk), then no change
+        how = ['B1', 'S2B1', 'kill', 'B2'][v % 4]
+        cfg = {'nd': 2, 'np': 1, 'order': 'alpha', 'uuid': v % 2 == 1, 'multi': False, 'where': 'tmpfs', 'both_scans': v % 2 == 0,
+               'seed': rng.getrandbits(32), 'scripted': 'delete_partial/' + how}
+        H = Hist(chk, binary, shim, model, random.Random(cfg['seed']), cfg)
+        try:
+            ok = H.step([['create', 'd1', 'X', 5000], ['create', 'd2', 'Y', rng.choice([4100, 5000])], ['create', 'd2', 'keep', 10]])
+            if ok and how == 'kill':
+                ok = H.step_killed([['delete', 'd2', 'Y']])
+            elif ok:
+                ok = H.step([['delete', 'd2', 'Y']], partial=True, popts={'B1': ['-B', '1'], 'S2B1': ['-S', '2', '-B', '1'], 'B2': ['-B', '2']}[how])
+            ok = ok and H.step([])
+            if ok and model:
+                c11_model.flush_drift(H)
+        finally:
+            shutil.rmtree(H.w.arr.root, ignore_errors=True)
+        out.append(H)
+    for v in range(nvar):
+        sub = ['', 'da/'][v % 2]
+        cfg = {'nd': 2, 'np': 1, 'order': 'alpha', 'uuid': (v // 2) % 2 == 0, 'multi': False, 'where': 'tmpfs', 'both_scans': False,
+               'seed': rng.getrandbits(32), 'scripted': 'link_kind'}
+        H = Hist(chk, binary, shim, model, random.Random(cfg['seed']), cfg)
+        try:
+            ok = H.step([['create', 'd1', sub + 'a', rng.choice([0, 1, 2048])], ['create', 'd2', 'x', 100], ['symlink', 'd1', sub + 'zl', sub + 'a']])
+            for _ in range(3):
+                ok = ok and H.step([['linkkind', 'd1', sub + 'zl']] + ([['create', 'd2', 'y', 10]] if rng.random() < 0.5 else []))
+            if ok and model:
+                c11_model.flush_drift(H)
+        finally:
+            shutil.rmtree(H.w.arr.root, ignore_errors=True)
+        out.append(H)
+    return out
 
 
 def corpus_cases(chk, binary, shim, model):
@@ -410,6 +494,7 @@ def main(tier, replay=None):
         chk.violation('model_build', 'the scan model does not build: %s' % str(e)[-600:], {'error': str(e)[-3000:]}, no_input=True)
     rng = chk.rng
     ncorpus = corpus_cases(chk, binary, shim, model) if not replay else 0
+    scr = scripted(chk, binary, shim, model, rng, tier) if not replay else []
     if replay:
         rp = json.load(open(replay))['replay']
         cfgs = [rp['config']]
@@ -438,7 +523,11 @@ def main(tier, replay=None):
                 counts[k] = counts.get(k, 0) + v
             if len(samples) < 3:
                 samples.append({'config': H.cfg, 'history': H.w.log[:16]})
-    chk.cov.update({'evaluations': tot['cmds'], 'distinct_nontrivial': stats.get('diff2', 0),
+    for H in scr:
+        tot['cmds'] += H.ncmd; tot['model'] += H.nmodel
+        for k, v in H.stats.items():
+            stats[k] = stats.get(k, 0) + v
+    chk.cov.update({'evaluations': tot['cmds'], 'distinct_nontrivial': stats.get('diff2', 0), 'scripted_recipes': len(scr),
                     'rule': 'histories of random file-system operations (create/recreate/rewrite/append/truncate/delete/rename/swap/move/copy -p/touch/symlink/hardlink/mkdir/file<->dir) '
                             'on %d arrays, scan orders alpha/inode/dir/physical, with and without usable inodes (fake UUIDs), threaded and sequential scans, tmpfs and ext4 (inode reuse); '
                             'per step diff/sync/diff/list/check judged by the harness walk; non-trivial = steps in which the tree differed from the recorded state' % len(cfgs),
